@@ -157,13 +157,24 @@ func (t *tobj) shape() string {
 		switch {
 		case n < hbuf:
 			return "<20KiB"
+		case n == hbuf:
+			return "=20KiB"
 		case n <= 2*hbuf:
 			return "20..40KiB"
 		}
 		return ">40KiB"
 	}
 	if t.stored == len(t.enc) {
-		return "raw:object" + sz(len(t.enc))
+		lay := "plain-file"
+		switch {
+		case strings.Contains(t.Format, "combined-single"):
+			lay = "sole-member"
+		case strings.Contains(t.Format, "combined-3"):
+			lay = "one-of-3-members"
+		case strings.Contains(t.Format, "put"):
+			lay = "stored-by-put"
+		}
+		return "raw:object" + sz(len(t.enc)) + "," + lay
 	}
 	return "zstd:stored" + sz(t.stored) + ",object" + sz(len(t.enc))
 }
@@ -364,7 +375,7 @@ type checker struct {
 
 // contentRules are failures of the returned bytes (fingerprinted by storage shape); all other rules are
 // failures of the satisfiable/unsatisfiable decision (fingerprinted by range mode and reference class).
-var contentRules = map[string]bool{"wrong-bytes": true, "truncated-result": true, "whole-object-bytes-differ": true, "whole-object-truncated": true,
+var contentRules = map[string]bool{"wrong-bytes": true, "truncated-result": true, "whole-object-bytes-differ": true, "whole-object-truncated": true, "whole-object-trailing-bytes": true,
 	"unexpected-error": true, "panic": true, "wrong-header-returned": true, "wrong-payload-length-returned": true,
 	"interceptor-got-wrong-header": true, "interceptor-call-count": true, "header-buffer-is-not-an-object-prefix-with-full-header": true}
 
@@ -503,6 +514,8 @@ func (c *checker) one(r common.PayloadRange) {
 				c.viol(api, "unsatisfiable-range-not-reported-out-of-range", r, e, "returned the whole object")
 			} else if len(whole) < len(t.enc) && bytes.Equal(whole, t.enc[:len(whole)]) {
 				c.viol(api, "whole-object-truncated", r, e, fmt.Sprintf("%d+%d bytes, stored object has %d", n, len(data), len(t.enc)))
+			} else if len(whole) > len(t.enc) && bytes.Equal(whole[:len(t.enc)], t.enc) {
+				c.viol(api, "whole-object-trailing-bytes", r, e, fmt.Sprintf("%d+%d bytes, stored object has %d", n, len(data), len(t.enc)))
 			} else if !bytes.Equal(whole, t.enc) {
 				c.viol(api, "whole-object-bytes-differ", r, e, fmt.Sprintf("%d+%d bytes, stored %d (first difference at %d)", n, len(data), len(t.enc), firstDiff(whole, t.enc)))
 			}
@@ -799,7 +812,7 @@ func lengths(thorough bool) []spec {
 	}
 	sort.Ints(ls)
 	for _, l := range ls {
-		if !thorough && !(l == hbuf-over+1 || l == 2*hbuf+1 || l == 100000) {
+		if !thorough && !(l == hbuf-over || l == 2*hbuf+1 || l == 100000) {
 			continue
 		}
 		if thorough || l != 100000 {
